@@ -878,7 +878,10 @@ class Evaluator:
             out.returned = e2.returned
             out.ret_cond = rc
         else:
-            raise Unsupported("nested partial returns")
+            # both sides may have returned (under t1 / t2): when the merged
+            # path has returned, the value is r1 under c and r2 otherwise
+            out.returned = _merge_ret(c, e1.returned, e2.returned)
+            out.ret_cond = rc
         return out
 
 
